@@ -134,6 +134,9 @@ func drawConfig(profile string, tier string, r *Rand) Config {
 	c.InitialReward = []int64{1, 1000, 2378234400000000000, 1<<63 - 1}[r.Intn(4)]
 	c.RewardRemain = pick(r, []string{"0", "5000", "100000000000000000000", "6000000000000000000"})
 	c.ElectingSec = int64(20 + r.Intn(100))
+	if (profile == "relayer" || profile == "admission" || profile == "export") && r.Chance(0.4) {
+		c.ElectingSec = int64(6 + r.Intn(10)) // several elections within a short run (members leave, come back, leave again)
+	}
 	c.AcceptTimeoutSec = []int64{0, 5, 15, 60}[r.Intn(4)]
 	c.Network = pick(r, []string{"regtest", "regtest", "mainnet", "testnet3", "signet"})
 	c.KeySchnorr = r.Chance(0.35)
@@ -188,6 +191,9 @@ func drawConfig(profile string, tier string, r *Rand) Config {
 	}
 	if (profile == "locking" || profile == "determinism") && !c.FaultFree && r.Chance(0.06) {
 		c.LastExit = true
+	}
+	if (profile == "locking" || profile == "determinism") && !c.FaultFree && !c.LastExit && r.Chance(0.06) {
+		c.LastPunish = true
 	}
 	if c.FaultFree {
 		c.Weights["el.adversarial"] = 0
